@@ -18,17 +18,27 @@ VARIABLE tid
 IsCall(t) == t.cfg.kind = "c17"
 Completed(t) == t.exc = "" /\ ~t.ood /\ t.stage = "done"
 
-ParamsOf(t, a) ==
-  IF IsCall(t) THEN ParamsC17(t.cfg, a, t.adjknown, t.adj)
-  ELSE ParamsC16(t.cfg, a, t.scratch, t.adjknown, t.adj)
-EventsOf(t) ==
-  t.pro \o <<E0("bodyentry")>> \o (IF IsCall(t) THEN t.body ELSE <<E0("havoc")>>)
-        \o <<E0("bodyexit")>> \o t.epi \o <<E0("end")>>
-\* a |-> [P, S]: parameters and final machine state of the replay from 1024 + a
+\* Observation of site number s (histories: ONE CallPatch object used at
+\* several insertion sites; the first site is at the top level of the trace)
+NSites(t) == IF IsCall(t) THEN Len(t.cfg.sites) ELSE 1
+Obs(t, s) == IF s = 1 THEN [pro |-> t.pro, body |-> t.body, epi |-> t.epi,
+                            adjknown |-> t.adjknown, adj |-> t.adj, scratch |-> t.scratch,
+                            cb |-> t.cb]
+             ELSE t.more[s - 1]
+ParamsOf(t, s, a) ==
+  LET o == Obs(t, s) IN
+  IF IsCall(t) THEN ParamsC17(At(t.cfg, s), a, o.adjknown, o.adj)
+  ELSE ParamsC16(t.cfg, a, o.scratch, o.adjknown, o.adj)
+EventsOf(t, s) ==
+  LET o == Obs(t, s) IN
+  o.pro \o <<E0("bodyentry")>> \o (IF IsCall(t) THEN o.body ELSE <<E0("havoc")>>)
+        \o <<E0("bodyexit")>> \o o.epi \o <<E0("end")>>
+\* <<s, a>> |-> [P, S]: parameters and final machine state of the replay of
+\* the code emitted at site s from the start address 1024 + a
 Runs(t) ==
-  LET evs == EventsOf(t) IN
-  [a \in RelevantAligns(t.cfg.abi, t.cfg.align) |->
-     LET P == ParamsOf(t, a)
+  [x \in (1..NSites(t)) \X RelevantAligns(t.cfg.abi, t.cfg.align) |->
+     LET P == ParamsOf(t, x[1], x[2])
+         evs == EventsOf(t, x[1])
      IN  [P |-> P, S |-> FoldLeft(LAMBDA S, e : Eff(P, S, e), InitState(P), evs)]]
 
 All(R, Pr(_, _)) == \A a \in DOMAIN R : Pr(R[a].P, R[a].S)
@@ -41,12 +51,24 @@ PStackArgs(P, S, c) == StackArgsOK(P, c)
 PShadow(P, S, c) == ShadowReserved(P, S, c)
 PAligned(P, S, c) == P.aligndom => AlignedAtCall(P, c)
 
+\* at every site every argument callable was called with (a context equal
+\* to) the context get_asm was given there, and nothing else was called
 CallableOK(t) ==
-  \A i \in DOMAIN t.cfg.args :
-     LET recs == {j \in DOMAIN t.cb : t.cb[j].i = i - 1} IN
-     IF t.cfg.args[i].cb
-     THEN recs # {} /\ \A j \in recs : t.cb[j].same /\ t.cb[j].isctx
-     ELSE recs = {}
+  \A s \in 1..NSites(t) : \A i \in DOMAIN t.cfg.args :
+     LET cb == Obs(t, s).cb
+         recs == {j \in DOMAIN cb : cb[j].i = i - 1}
+     IN  IF t.cfg.args[i].cb
+         THEN recs # {} /\ \A j \in recs : cb[j].same /\ cb[j].isctx
+         ELSE recs = {}
+\* the value materialised at site s for a context dependent callable is
+\* f(context of site s) (P.exp is computed from the site: CallGen!At)
+CtxPositions(c) == {i \in DOMAIN c.args : IsCtxKind(c.args[i])}
+CallableSeesItsContext(t, R) ==
+  \A x \in DOMAIN R : \A k \in DOMAIN R[x].S.calls : \A i \in CtxPositions(t.cfg) :
+     SeenArg(R[x].P, R[x].S.calls[k], i) = R[x].P.exp[i]
+CallableSeesModuloSymLoad(t, R) ==
+  \A x \in DOMAIN R : \A k \in DOMAIN R[x].S.calls : \A i \in CtxPositions(t.cfg) :
+     ArgOKModuloSymLoad(R[x].P, R[x].S.calls[k], i)
 ReachedGetAsm(t) == t.stage \in {"assemble", "decode", "done"}
 
 (***************************************************************************)
@@ -71,7 +93,8 @@ Clauses16(t, R) ==
         <<"C16_SpRestored", done, All(R, SpRestored)>>,
         <<"C16_ReportedAdjustment", done /\ t.adjknown, All(R, ReportedAdjustment)>>,
         <<"C16_AlignedIfAlignStack", done /\ c.align, All(R, AlignedIfAlignStack)>>,
-        <<"C16_ScratchOK", done, ScratchOK(c.abi, t.scratch, c.scratch, SeqToSet(c.reads))>> >>
+        <<"C16_ScratchOK", done, ScratchOK(c.abi, t.scratch, c.scratch,
+                                             SeqToSet(c.reads) \cup SeqToSet(c.clob))>> >>
 
 Clauses17(t, R) ==
   LET c == t.cfg
@@ -93,8 +116,11 @@ Clauses17(t, R) ==
         <<"C17_NoCollateral", done, All(R, NoCollateral)>>,
         <<"C17_FlagsRestoredIfDeclared", done /\ c.flags, All(R, FlagsRestoredIfDeclared)>>,
         <<"C17_ReportedAdjustment", done /\ t.adjknown, All(R, ReportedAdjustment)>>,
-        <<"C17_CallableGetsContext", ReachedGetAsm(t) /\ \E i \in DOMAIN c.args : c.args[i].cb,
-                                     CallableOK(t)>> >>
+        <<"C17_CallableGetsContext", (done \/ (NSites(t) = 1 /\ ReachedGetAsm(t)))
+                                     /\ \E i \in DOMAIN c.args : c.args[i].cb,
+                                     CallableOK(t)>>,
+        <<"C17_CallableSeesItsContext", done /\ CtxPositions(c) # {},
+                                        CallableSeesItsContext(t, R)>> >>
 
 (***************************************************************************)
 (* OPEN known findings: narrow signatures (see known_findings.json).  The  *)
@@ -104,12 +130,15 @@ Clauses17(t, R) ==
 KfTags(t, R, clause) ==
   LET c == t.cfg IN
   CASE clause = "C17_Completes" ->
-         IF t.exc = "AsmSyntaxError" /\ t.stage = "assemble" /\ KfX64Push(c)
+         IF t.exc = "AsmSyntaxError" /\ t.stage = "assemble"
+            /\ \E s \in 1..NSites(t) : KfX64Push(At(c, s))
          THEN {"KF-C17-2"} ELSE {}
     [] clause \in {"C17_ArgRegs", "C17_StackArgs"} ->
          IF \A a \in DOMAIN R : \A k \in DOMAIN R[a].S.calls :
-               ArgsOKModuloSymLoad(c, R[a].P, R[a].S.calls[k])
+               ArgsOKModuloSymLoad(R[a].P, R[a].S.calls[k])
          THEN {"KF-C17-3"} ELSE {}
+    [] clause = "C17_CallableSeesItsContext" ->
+         IF CallableSeesModuloSymLoad(t, R) THEN {"KF-C17-3"} ELSE {}
     [] OTHER -> {}
 
 (***************************************************************************)
@@ -121,31 +150,41 @@ Short(tok) == <<tok.k, tok.s, tok.b, tok.n>>
 DiffState(t, R, a) ==
   LET S == R[a].S
       P == R[a].P
-  IN  [a |-> a, sp0 |-> P.sp0, sp |-> S.sp, spBody |-> S.spBody, spExit |-> S.spExit,
-       phase |-> S.phase, adjknown |-> t.adjknown, adj |-> t.adj,
+      o == Obs(t, a[1])
+  IN  [site |-> a[1], a |-> a[2], sp0 |-> P.sp0, sp |-> S.sp, spBody |-> S.spBody, spExit |-> S.spExit,
+       phase |-> S.phase, adjknown |-> o.adjknown, adj |-> o.adj,
        highest_write_end |-> SetMax({x + P.w : x \in S.written}),
        badreads |-> S.badreads, misaligned_sp_at_steps |-> S.misal, flags |-> S.flags.k,
        changed |-> {r \in DOMAIN S.regs : S.regs[r] # InitTok(r)},
-       scratch |-> t.scratch,
+       scratch |-> o.scratch,
        calls |-> [k \in DOMAIN S.calls |->
                     [sp |-> S.calls[k].sp, t |-> S.calls[k].t,
-                     seen |-> [i \in DOMAIN P.exp |-> Short(SeenArg(P, S.calls[k], i))]]]]
+                     seen |-> [i \in DOMAIN P.exp |-> Short(SeenArg(P, S.calls[k], i))],
+                     expected |-> [i \in DOMAIN P.exp |-> Short(P.exp[i])]]]]
+\* a run on which the clause fails, if it is a clause about single runs
+Witness(R) == IF \E x \in DOMAIN R : R[x].S.calls # <<>> /\
+                    \E k \in DOMAIN R[x].S.calls : ~ArgsOKModuloSymLoad(R[x].P, R[x].S.calls[k])
+              THEN CHOOSE x \in DOMAIN R : \E k \in DOMAIN R[x].S.calls :
+                                              ~ArgsOKModuloSymLoad(R[x].P, R[x].S.calls[k])
+              ELSE CHOOSE x \in DOMAIN R : \A y \in DOMAIN R : x[1] < y[1] \/ (x[1] = y[1] /\ x[2] <= y[2])
 Diff(t, R, name) ==
   IF name \in {"C16_Completes", "C17_Completes"} THEN [exc |-> t.exc, stage |-> t.stage]
-  ELSE IF name = "C17_CallableGetsContext" THEN [cb |-> t.cb]
+  ELSE IF name = "C17_CallableGetsContext"
+       THEN [cb |-> [s \in 1..NSites(t) |-> Obs(t, s).cb]]
   ELSE IF DOMAIN R = {} THEN [exc |-> t.exc, stage |-> t.stage]
-  ELSE DiffState(t, R, CHOOSE a \in DOMAIN R : \A b \in DOMAIN R : a <= b)
+  ELSE DiffState(t, R, Witness(R))
 
 \* Level B drift: the library no longer does what AbiGen / CallGen model
 Drift(t) ==
-  LET p == IF IsCall(t) THEN CallPredict(t.cfg)
-           ELSE Predict(t.cfg) IN
   /\ ~t.ood
-  /\ \/ p.exc # t.exc
-     \/ /\ t.exc = ""
-        /\ \/ p.pro # t.pro \/ p.epi # t.epi
-           \/ (IsCall(t) /\ p.body # t.body)
-           \/ p.adjknown # t.adjknown \/ p.adj # t.adj \/ p.scratch # t.scratch
+  /\ \E s \in 1..NSites(t) :
+       LET p == IF IsCall(t) THEN CallPredict(At(t.cfg, s)) ELSE Predict(t.cfg)
+           o == Obs(t, s)
+       IN  \/ p.exc # t.exc
+           \/ /\ t.exc = ""
+              /\ \/ p.pro # o.pro \/ p.epi # o.epi
+                 \/ (IsCall(t) /\ p.body # o.body)
+                 \/ p.adjknown # o.adjknown \/ p.adj # o.adj \/ p.scratch # o.scratch
 
 Verdict(t) ==
   LET R == IF Completed(t) THEN Runs(t) ELSE [a \in {} |-> 0]
